@@ -233,3 +233,38 @@ func TestC36(t *testing.T) {
 		}
 	})
 }
+
+// FuzzC36Strict is the native (coverage guided) target of the thorough tier: the strict parser accepts a string
+// iff it is canonical (^(hx|cx)[0-9a-f]{40}$) and then yields the address that prints as that string; a 21-byte
+// string that SetBytes accepts gives an address whose Bytes() parse back to it.
+func FuzzC36Strict(f *testing.F) {
+	for _, s := range []string{"hx0000000000000000000000000000000000000000", "cx00112233445566778899aabbccddeeff00112233", "hxFF112233445566778899aabbccddeeff00112233",
+		"0x00112233445566778899aabbccddeeff00112233", "00112233445566778899aabbccddeeff00112233", "hx", "", "cx0", " hx0000000000000000000000000000000000000000",
+		"hx0000000000000000000000000000000000000000\n", "hx00000000000000000000000000000000000000000", "hx000000000000000000000000000000000000000g"} {
+		f.Add(s)
+	}
+	f.Fuzz(func(t *testing.T, cand string) {
+		if len(cand) > 256 {
+			return
+		}
+		var p common.Address
+		for i := range p {
+			p[i] = 0x5a
+		}
+		err := p.SetStringStrict(cand)
+		if c36Canon.MatchString(cand) {
+			if err != nil {
+				t.Fatalf("C36 violated: SetStringStrict rejects canonical string %q: %v", cand, err)
+			}
+			if got := c36Text(&p); got != cand || p.String() != cand {
+				t.Fatalf("C36 violated: SetStringStrict(%q) gives %x which prints as %q", cand, p[:], p.String())
+			}
+			var q common.Address
+			if err := q.SetBytes(p.Bytes()); err != nil || q != p {
+				t.Fatalf("C36 violated: SetBytes(Bytes(%s)) gives %x err=%v", cand, q[:], err)
+			}
+		} else if err == nil {
+			t.Fatalf("C36 violated: SetStringStrict accepts non-canonical string %q (-> %s)", cand, p.String())
+		}
+	})
+}
